@@ -1,79 +1,81 @@
 /-
-C02 — No file content can crash or hang a built-in extractor (the part Lean can carry for the modelled parsers).
-The byte-level models of C03 are total functions by construction: every loop is structural recursion or has an
-explicit iteration bound (`lines + 2`), every slice is guarded. These theorems are the formal statement
-"∀ bytes, the model never reaches a crash outcome"; they say something about the Go code only through the
-correspondence runs of C03/C02 on arbitrary and mutated bytes (model and implementation agree on
-error-vs-value there). For package-lock.json the statement is about the record loop over ANY decoded document
-and does real work: the alias branch `Version[4:i]` is where the code panicked before fix 7578723d.
-Engine-level confinement (C02_confined, C02_no_recover) lives with the walk-engine model.
+C02 — engine-level part: what the walk-engine model says about an extractor that fails or panics.
+(This module was re-created after the original text of the engine theorems was overwritten by the parser
+totality file `Properties/C02.lean`; the statements below are re-derived from the walk-engine results
+`run_nopanic`, `run_spec`, `run_results` and `C09_status_meaning`.)
 -/
-import Scalibr.Model.Parsers.Apk
-import Scalibr.Model.Parsers.Gradle
-import Scalibr.Model.Parsers.Gemfile
-import Scalibr.Model.Parsers.Dpkg
-import Scalibr.Model.Parsers.Requirements
-import Scalibr.Proofs.Lockfiles
-namespace Scalibr.Parsers
+import Scalibr.Properties.C09
+namespace Scalibr.Walk
 
-theorem C02_apk_total (bytes : List Char) : Apk.parse bytes ≠ .panic := by
-  unfold Apk.parse; split; split <;> simp
+/-- The engine has no `recover`: a scan ends in a panic ONLY IF some extractor's `Extract` panics on some
+path — whatever the trees, fault plans, limits, options and cancellation point. (Contrapositive of
+`C09_no_panic`.) -/
+theorem C02_panic_only_from_extractor (c : Cfg) (roots : List (Node × Faults)) (h : (run c roots).err = .panic) :
+    ∃ e p, (c.extract e p).panics = true := by
+  apply Classical.byContradiction
+  intro hn
+  have hx : NoExtractorPanic c := by
+    intro e p
+    cases hp : (c.extract e p).panics with
+    | false => rfl
+    | true => exact absurd ⟨e, p, hp⟩ hn
+  exact run_nopanic c hx roots h
 
-theorem C02_gradle_total (bytes : List Char) : Gradle.parse bytes ≠ .panic := by
-  unfold Gradle.parse; split; simp only []; split <;> simp
+theorem pkgsOfCalls_filter (c : Cfg) (e0 : Nat) (p0 : Path) (cs : List Call) :
+    (pkgsOfCalls c cs).filter (fun k => !(k.ext = e0 && k.loc = p0))
+      = pkgsOfCalls c (cs.filter fun cl => !(cl.ext = e0 && cl.path = p0)) := by
+  induction cs with
+  | nil => rfl
+  | cons cl cs ih =>
+    have hcons : pkgsOfCalls c (cl :: cs) = pkgsOfCalls c [cl] ++ pkgsOfCalls c cs := pkgsOfCalls_append c [cl] cs
+    rw [hcons, List.filter_append, ih]
+    by_cases hk : (cl.ext = e0 && cl.path = p0) = true
+    · have h1 : (pkgsOfCalls c [cl]).filter (fun k => !(k.ext = e0 && k.loc = p0)) = [] := by
+        rw [List.filter_eq_nil_iff]
+        intro k hkm
+        simp only [pkgsOfCalls, List.flatMap_cons, List.flatMap_nil, List.append_nil] at hkm
+        split at hkm
+        · obtain ⟨i, _, rfl⟩ := List.mem_map.mp hkm
+          simpa using hk
+        · simp at hkm
+      rw [h1, List.filter_cons_of_neg (by simpa using hk)]; rfl
+    · have h1 : (pkgsOfCalls c [cl]).filter (fun k => !(k.ext = e0 && k.loc = p0)) = pkgsOfCalls c [cl] := by
+        rw [List.filter_eq_self]
+        intro k hkm
+        simp only [pkgsOfCalls, List.flatMap_cons, List.flatMap_nil, List.append_nil] at hkm
+        split at hkm
+        · obtain ⟨i, _, rfl⟩ := List.mem_map.mp hkm
+          cases hb' : (cl.ext = e0 && cl.path = p0) with
+          | true => exact absurd hb' hk
+          | false => simp [hb']
+        · simp at hkm
+      have hk' : (!(cl.ext = e0 && cl.path = p0)) = true := by
+        cases hb' : (cl.ext = e0 && cl.path = p0) with
+        | true => exact absurd hb' hk
+        | false => rfl
+      have hf : (cl :: cs).filter (fun cl => !(cl.ext = e0 && cl.path = p0))
+          = cl :: cs.filter (fun cl => !(cl.ext = e0 && cl.path = p0)) := by
+        simp only [List.filter_cons, hk', if_true]
+      rw [h1, hf]
+      exact (pkgsOfCalls_append c [cl] _).symm
 
-theorem C02_gemfile_total (bytes : List Char) : Gemfile.parse bytes ≠ .panic := by
-  unfold Gemfile.parse; split; split <;> simp
+/-- **Confinement.** In a scan without limits / cancellation / fatal-errors option and with extractors that do
+not panic, whatever `Extract` returns for extractor `e0` on file `p0` (an error, a partial inventory, nothing):
+the scan itself does not fail; the invocations made are exactly the ones the specification owes (`mustExtract`,
+which never looks at an `Extract` result); the packages NOT produced by (`e0`, `p0`) are exactly what the other
+invocations returned; and an extractor's status is `failed`/`partial` exactly when one of ITS OWN attempts
+failed. -/
+theorem C02_confined (c : Cfg) (hb : Benign c) (roots : List (Node × Faults)) (ho : GiOK c) (e0 : Nat) (p0 : Path) :
+    (run c roots).err = .none ∧
+    (run c roots).calls = mustExtract c roots ∧
+    (run c roots).pkgs.filter (fun k => !(k.ext = e0 && k.loc = p0))
+      = pkgsOfCalls c ((mustExtract c roots).filter fun cl => !(cl.ext = e0 && cl.path = p0)) ∧
+    (run c roots).statuses = roots.flatMap (fun (r, f) => (List.range c.nExt).map fun e => (e, statusSpec c f r e)) ∧
+    ∀ (f : Faults) (root : Node) (e : Nat), statusSpec c f root e ≠ .ok ↔
+      ∃ cl ∈ mustRoot c f root, cl.ext = e ∧ (cl.opened = false ∨ (c.extract cl.ext cl.path).err = true) := by
+  obtain ⟨h1, h2⟩ := run_spec c hb roots ho
+  obtain ⟨h3, h4⟩ := run_results c hb roots ho
+  refine ⟨h1, h2, ?_, h4, fun f root e => (C09_status_meaning c f root e).1⟩
+  rw [h3, pkgsOfCalls_filter]
 
-theorem C02_dpkg_total (bytes : List Char) : Dpkg.parse bytes ≠ .panic := by
-  unfold Dpkg.parse; simp only []; split <;> simp
-
-theorem C02_requirements_total (bytes : List Char) : Requirements.parse bytes ≠ .panic := by
-  unfold Requirements.parse; split; simp only []; split <;> simp
-
-/-- every iteration bound used by the models is generous: the apk and dpkg record loops are given `lines + 2`
-iterations, and each iteration consumes at least one line or ends the loop (stated here for the scanner: the
-number of lines never exceeds the number of bytes + 1, so the bound is finite and computable up front) -/
-theorem C02_scan_lines_bounded (bytes : List Char) : (scan bytes).1.length ≤ bytes.length + 1 := by
-  unfold scan
-  simp only [List.length_map]
-  have hch : ∀ (s cur : List Char), (chunks s cur).length ≤ s.length + 1 := by
-    intro s
-    induction s with
-    | nil => intro cur; simp [chunks]; split <;> simp
-    | cons c s ih =>
-      intro cur
-      simp only [chunks]
-      split
-      · have := ih []; simp only [List.length_cons]; omega
-      · have := ih (c :: cur); simp only [List.length_cons]; omega
-  have htw : ∀ (p : List Char → Bool) (l : List (List Char)), (l.takeWhile p).length ≤ l.length := by
-    intro p l
-    induction l with
-    | nil => simp
-    | cons x xs ih => rw [List.takeWhile_cons]; split <;> simp <;> omega
-  exact Nat.le_trans (htw _ _) (hch bytes [])
-
-end Scalibr.Parsers
-
-namespace Scalibr.Lockfiles
-/-- the record loop of package-lock.json never panics, for ANY decoded document (alias without `@version`,
-alias `npm:@scope/x`, `npm:` alone, …) -/
-theorem C02_packagelock_total (d : PackageLock.Doc) : PackageLock.extract d ≠ .panic := by
-  unfold PackageLock.extract
-  cases d.packages with
-  | some ps => simp
-  | none =>
-    obtain ⟨m, hm, _⟩ := PackageLock.parseDeps_spec d.dependencies [] (by simp [keys])
-    simp [hm]
-
-/-- the record loop of Pipfile.lock never panics (`Version[2:]` is guarded) -/
-theorem C02_pipfile_total (d : Pipfile.Doc) : Pipfile.extract d ≠ .panic := by
-  unfold Pipfile.extract
-  rw [Pipfile.addPkgs_eq]; simp only []
-  rw [Pipfile.addPkgs_eq]; simp
-
-/-- the witness of fix 7578723d, on the model: `"npm:foo"` is an alias without version, not a crash -/
-example : PackageLock.depEntry "x".toList "npm:foo".toList [] = some ("foo@npm:foo".toList, ⟨"foo".toList, [], []⟩) := by decide
-example : PackageLock.depEntry "x".toList "npm:".toList [] = some ("@npm:".toList, ⟨[], [], []⟩) := by decide
-end Scalibr.Lockfiles
+end Scalibr.Walk
